@@ -138,6 +138,7 @@ class GenB:
         self.qtys = []           # (ref, nf, Fraction magnitude or None, kind)
         self.queries = []        # (op id, kind) for repeats
         self.have_si = "kilo" in self.model.prefix_names
+        self.pairs = []
         self.decl_count = {}
         self.first_decl = {}
         self.used_as_expr = set()
@@ -438,6 +439,7 @@ class GenB:
         rng = self.rng
         sref = self.unit_expr(src)
         dref = self.unit_expr(dst)
+        self.pairs.append((src, dst))
         mspec, mval = self.magnitude()
         q = self.emit({"op": "q_new", "m": mspec, "u": sref, "how": "mul"})
         kind = rng.choice(self.query_kinds)
@@ -445,6 +447,13 @@ class GenB:
             r = self.emit({"op": "convert", "q": q, "u": dref})
             self.qtys.append((r, dst))
             self.queries.append(self.ops[-1])
+            if rng.random() < 0.3:
+                # ping-pong: the opposite direction right away (no declaration in between)
+                m2, _ = self.magnitude()
+                q2 = self.emit({"op": "q_new", "m": m2, "u": dref, "how": "mul"})
+                r2 = self.emit({"op": "convert", "q": q2, "u": sref})
+                self.qtys.append((r2, src))
+                self.queries.append(self.ops[-1])
         elif kind in ("cmp==", "cmp<"):
             m2, _ = self.magnitude()
             q2 = self.emit({"op": "q_new", "m": m2, "u": dref, "how": "mul"})
@@ -522,6 +531,25 @@ class GenB:
             self.qtys.append((r, dst))
             self.queries.append(self.ops[-1])
 
+    def g_reverse(self):
+        """Ask an earlier conversion in the opposite direction (planning is
+        direction-dependent: some pairs convert one way only)."""
+        if not self.pairs:
+            return self.g_query()
+        src, dst = self.rng.choice(self.pairs)
+        sref, dref = self.unit_expr(dst), self.unit_expr(src)
+        mspec, _ = self.magnitude()
+        q = self.emit({"op": "q_new", "m": mspec, "u": sref, "how": "mul"})
+        kind = self.rng.choice(["convert", "convert", "cmp<", "cmp=="])
+        if kind == "convert" or self.prop in ("C04", "C05"):
+            r = self.emit({"op": "convert", "q": q, "u": dref})
+            self.qtys.append((r, src))
+        else:
+            m2, _ = self.magnitude()
+            q2 = self.emit({"op": "q_new", "m": m2, "u": dref, "how": "mul"})
+            self.emit({"op": "cmp", "f": kind[3:], "a": q, "b": q2})
+        self.queries.append(self.ops[-1])
+
     def g_repeat(self):
         if not self.queries:
             return self.g_query()
@@ -588,10 +616,22 @@ class GenB:
         n_target = rng.choice([15, 25, 25, 40, 60])
         inject_budget = 1 if (self.params.get("faults", True) and rng.random() < 0.25) else 0
         early_queries = rng.random() < 0.6
+        # per-run knob: build (almost) the whole system first, then a long declaration-free
+        # query phase (history effects between queries are then not masked by invalidation)
+        front_load = rng.random() < 0.35
+        tries = {}
         guard = 0
-        while len(self.ops) < n_target and guard < 400:
+        extended = False
+        while len(self.ops) < n_target and guard < 600:
             guard += 1
+            if front_load and not extended and not pending_defs and not decl_queue:
+                # the system is built: now a declaration-free query phase of seeded length
+                extended = True
+                n_target = min(100, len(self.ops) + rng.choice([15, 25, 40]))
             r = rng.random()
+            if front_load and (pending_defs or decl_queue) and guard < 300:
+                n_target = max(n_target, len(self.ops) + 20)
+                r = r * 0.5 if pending_defs else 0.36 + r * 0.15
             if pending_defs and (r < 0.35 or len(self.unit_ref) < 2):
                 t, d, s = pending_defs.pop()
                 if not self.emit_define(t, d):
@@ -600,6 +640,9 @@ class GenB:
                 continue
             if decl_queue and r < (0.55 if early_queries else 0.8):
                 t = decl_queue.pop(rng.randrange(len(decl_queue)))
+                tries[t] = tries.get(t, 0) + 1
+                if tries[t] > 4:
+                    continue   # cannot be declared with the units this system has: drop it
                 d = self.model.base_dim[t]
                 done = False
                 same_d = [x for x in self.by_dim.get(d, []) if x != t and self.decl_count.get(x)]
@@ -635,8 +678,8 @@ class GenB:
                 continue
             if len(self.unit_ref) < 2:
                 continue
-            k = rng.choices(["query", "chain", "repeat", "evict", "unrelated", "redeclare", "ladder"],
-                            [10, 3, 3, 2, 1, 1.5 if self.prop == "C08" else 0.3, 2])[0]
+            k = rng.choices(["query", "chain", "repeat", "evict", "unrelated", "redeclare", "ladder", "reverse"],
+                            [10, 3, 3, 2, 1, 1.5 if self.prop == "C08" else 0.3, 2, 2.5])[0]
             before = len(self.ops)
             getattr(self, "g_" + k)()
             if inject_budget and len(self.ops) > before and rng.random() < 0.15:
